@@ -143,6 +143,8 @@ def int_binop(op: str, a: VInt, b: VInt) -> V:
     if op == "RShift":
         k = b.const()
         ta = _as_bv(a)
+        if k is not None and ta is None:
+            return VInt(int_term(a) / z3.IntVal(1 << k))     # floor division (Euclidean with positive divisor)
         if k is None or ta is None:
             raise Unsupported(">> on unbounded int or by symbolic amount")
         if k >= ta.size():
